@@ -469,7 +469,9 @@ func (e *executor) connectStepDependencies(
 				if data != nil {
 					stageData[inputField] = data
 				}
-				if err := e.prepareDependencies(workflowContext, data, currentStageNode, []string{}, internalDataModel, dag); err != nil {
+				// The path starts with the name of the input field, so that the group nodes of two fields of the same
+				// stage (or of a field and an output of the stage) do not get the same ID.
+				if err := e.prepareDependencies(workflowContext, data, currentStageNode, []string{inputField}, internalDataModel, dag); err != nil {
 					return fmt.Errorf("failed to build dependency tree for '%s' (%w)", currentStageNode.ID(), err)
 				}
 			}
